@@ -116,7 +116,7 @@ CHECKS = {
     ),
     "C18": (
         "model_checking",
-        "Every linear instance of the product: 1..2 (quick) / 1..3 (thorough) used variables with ids {4,9,1} in rotated list order plus an unused variable with the largest id, each over 34 kind x bound specs (incl. endpoints exactly 0, degenerate and huge finite bounds, fractional bounds on integer variables, a bound whose ends need all 17 significant digits) (continuous/integer x {absent,[0,1],[-3,5],[2,inf),(-inf,4],(-inf,inf),[-5,-1],[0,0],[0,inf),[-3,0],(-inf,0],[1,1]}, binary x {absent,[0,1],[0,0],[1,1]}) x objective forms x constraint lists (0..2, = / <=, constant-only included, ids {40,3}) with function variants rotating over every message type able to hold a linear function incl. unnormalised ones (a term listed twice, unsorted) a 2^-60 coefficient and a form whose coefficient and constant are doubles that need 17 significant digits (0.1+0.2, -(0.7+0.1)), names on some variables / constraints, both senses; written with mps::write_file and read back with mps::load_file in a private scratch directory (file called *.mps.gz or *.mps). Oracle: same sense, objective and every constraint equal as polynomials under the same variable and constraint ids with the same equality, same effective value domain (integrality + bounds, unset = unbounded, binary = integer in [0,1]) for every mathematically used variable. One 150-variable x 80-constraint instance (several hundred KB of text). Nonlinear objective / constraint (4 shapes, each position) must be refused with the error variant naming the offender.",
+        "Every linear instance of the product: 1..2 (quick) / 1..3 (thorough) used variables with ids {4,9,1} in rotated list order plus an unused variable with the largest id, each over 34 kind x bound specs (incl. endpoints exactly 0, degenerate and huge finite bounds, fractional bounds on integer variables, a bound whose ends need all 17 significant digits - that one and the 17-digit form in the one- and two-variable products only) (continuous/integer x {absent,[0,1],[-3,5],[2,inf),(-inf,4],(-inf,inf),[-5,-1],[0,0],[0,inf),[-3,0],(-inf,0],[1,1]}, binary x {absent,[0,1],[0,0],[1,1]}) x objective forms x constraint lists (0..2, = / <=, constant-only included, ids {40,3}) with function variants rotating over every message type able to hold a linear function incl. unnormalised ones (a term listed twice, unsorted) a 2^-60 coefficient and a form whose coefficient and constant are doubles that need 17 significant digits (0.1+0.2, -(0.7+0.1)), names on some variables / constraints, both senses; written with mps::write_file and read back with mps::load_file in a private scratch directory (file called *.mps.gz or *.mps). Oracle: same sense, objective and every constraint equal as polynomials under the same variable and constraint ids with the same equality, same effective value domain (integrality + bounds, unset = unbounded, binary = integer in [0,1]) for every mathematically used variable. One 150-variable x 80-constraint instance (several hundred KB of text). Nonlinear objective / constraint (4 shapes, each position) must be refused with the error variant naming the offender.",
         "Unnormalised (repeated-id) linear terms are outside the alphabet; variables not mathematically used are not compared (the property restricts to used variables).",
         "bounded exhaustive enumeration of linear instances through the real writer+reader round trip",
     ),
